@@ -536,10 +536,8 @@ func ruleC13StoreResult(c *Ctx) {
 		allInstrs(store, func(i ssa.Instruction) {
 			switch m.Kind {
 			case "memory":
-				if mu, ok := i.(*ssa.MapUpdate); ok {
-					if lk, isL := resolve(mu.Map).(*ssa.Lookup); isL && strings.HasSuffix(accessPath(lk.X), ".Envelopes") {
-						writes = append(writes, i)
-					}
+				if mu, ok := i.(*ssa.MapUpdate); ok && derivesFromEnvelopes(mu.Map, 0) {
+					writes = append(writes, i)
 				}
 			case "sql":
 				if staticIs(i, "(*database/sql.DB).ExecContext") {
@@ -747,14 +745,25 @@ func ruleC13FieldFidelity(c *Ctx) {
 		}
 		c.FuncsAnalysed[shortName(fn)] = true
 		var lit *ssa.Alloc
+		var sub *factSub
 		allInstrs(fn, func(i ssa.Instruction) {
 			if a, ok := i.(*ssa.Alloc); ok && namedTypeName(a.Type()) == typName && a.Comment == "complit" {
 				lit = a
 			}
 		})
+		if lit == nil {
+			// built by a constructor helper called from here
+			allInstrs(fn, func(i ssa.Instruction) {
+				if cv, ok := i.(*ssa.Call); ok && lit == nil {
+					if a, sb := litOf(cv); a != nil && sb != nil && namedTypeName(a.Type()) == typName {
+						lit, sub = a, sb
+					}
+				}
+			})
+		}
 		construct := trimPkgDirs(shortName(fn)) + "/" + typName
 		if lit == nil {
-			c.bad(construct, u.pos(fn.Pos()), "no "+typName+" literal built here")
+			c.bad(construct, u.pos(fn.Pos()), "no "+typName+" literal built here (nor in a constructor called from here)")
 			return
 		}
 		fl := litFields(lit)
@@ -765,7 +774,7 @@ func ruleC13FieldFidelity(c *Ctx) {
 				problems = append(problems, field+" not set")
 				continue
 			}
-			got := localNameRe.ReplaceAllString(fieldProvenance(v), "L")
+			got := localNameRe.ReplaceAllString(fieldProvenanceSub(v, sub), "L")
 			if !strings.HasSuffix(got, from) {
 				problems = append(problems, fmt.Sprintf("%s comes from %s, expected …%s", field, got, from))
 			}
@@ -849,13 +858,32 @@ func sortedKeys(m map[string]string) []string {
 
 // fieldProvenance describes where a field value comes from: an access path, base64enc(path)/base64dec(path), or a
 // nested literal T{a,b} (phi of nil and a literal is rendered as the literal).
-func fieldProvenance(v ssa.Value) string {
+func fieldProvenance(v ssa.Value) string { return fieldProvenanceSub(v, nil) }
+
+// composeSub: paths of an inner frame are first mapped by inner (callee params → this frame), then by outer.
+func composeSub(inner, outer *factSub) *factSub {
+	if outer == nil {
+		return inner
+	}
+	if inner == nil {
+		return outer
+	}
+	out := &factSub{}
+	for _, p := range inner.pairs {
+		out.pairs = append(out.pairs, [2]string{p[0], trimAddr(outer.apply(p[1]))})
+	}
+	return out
+}
+
+// fieldProvenanceSub: sub translates access paths of v's frame into the frame the expectation is written in.
+func fieldProvenanceSub(v ssa.Value, sub *factSub) string {
 	v = resolve(v)
+	ap := func(x ssa.Value) string { return trimAddr(sub.apply(accessPath(x))) }
 	switch x := v.(type) {
 	case *ssa.Phi:
 		for _, e := range x.Edges {
 			if !isNilConst(strip(e)) {
-				return fieldProvenance(e)
+				return fieldProvenanceSub(e, sub)
 			}
 		}
 	case *ssa.Alloc:
@@ -864,7 +892,7 @@ func fieldProvenance(v ssa.Value) string {
 		st, _ := x.Type().Underlying().(*types.Pointer).Elem().Underlying().(*types.Struct)
 		for k := 0; st != nil && k < st.NumFields(); k++ {
 			if fv, ok := fl[st.Field(k).Name()]; ok {
-				parts = append(parts, fieldProvenance(fv))
+				parts = append(parts, fieldProvenanceSub(fv, sub))
 			} else {
 				parts = append(parts, "<unset>")
 			}
@@ -872,12 +900,16 @@ func fieldProvenance(v ssa.Value) string {
 		return namedTypeName(x.Type()) + "{" + strings.Join(parts, ",") + "}"
 	case *ssa.Call:
 		if staticIs(x, "(*encoding/base64.Encoding).EncodeToString") && isStdEncoding(x.Call.Args[0]) {
-			return "base64enc(" + accessPath(x.Call.Args[1]) + ")"
+			return "base64enc(" + ap(x.Call.Args[1]) + ")"
+		}
+		// a conversion helper that returns nil or one literal built from its parameters
+		if lit, sb := litOf(x); lit != nil && sb != nil {
+			return fieldProvenanceSub(lit, composeSub(sb, sub))
 		}
 	case *ssa.Convert:
 		// string(buf) where buf was filled by StdEncoding.Encode(buf, src)
 		if src := base64BufferSource(x.X, "Encode"); src != nil {
-			return "base64enc(" + accessPath(src) + ")"
+			return "base64enc(" + ap(src) + ")"
 		}
 	case *ssa.Slice:
 		// buf[:n] where n, err := StdEncoding.Decode(buf, []byte(src))
@@ -887,16 +919,16 @@ func fieldProvenance(v ssa.Value) string {
 					if cv, ok := resolve(src).(*ssa.Convert); ok {
 						src = cv.X
 					}
-					return "base64dec(" + accessPath(src) + ")"
+					return "base64dec(" + ap(src) + ")"
 				}
 			}
 		}
 	case *ssa.Extract:
 		if call, ok := x.Tuple.(*ssa.Call); ok && staticIs(call, "(*encoding/base64.Encoding).DecodeString") && isStdEncoding(call.Call.Args[0]) && x.Index == 0 {
-			return "base64dec(" + accessPath(call.Call.Args[1]) + ")"
+			return "base64dec(" + ap(call.Call.Args[1]) + ")"
 		}
 	}
-	return accessPath(v)
+	return ap(v)
 }
 
 func isStdEncoding(v ssa.Value) bool {
@@ -924,4 +956,35 @@ func base64BufferSource(buf ssa.Value, meth string) ssa.Value {
 		}
 	}
 	return nil
+}
+
+// derivesFromEnvelopes: v is the nested per-id map of MemoryMetastore.Envelopes: a lookup in Envelopes, a map just made
+// and stored into Envelopes, or a phi of those.
+func derivesFromEnvelopes(v ssa.Value, depth int) bool {
+	if depth > 6 {
+		return false
+	}
+	v = resolve(v)
+	switch x := v.(type) {
+	case *ssa.Lookup:
+		return strings.HasSuffix(accessPath(x.X), ".Envelopes")
+	case *ssa.Extract:
+		if lk, ok := x.Tuple.(*ssa.Lookup); ok && x.Index == 0 {
+			return strings.HasSuffix(accessPath(lk.X), ".Envelopes")
+		}
+	case *ssa.MakeMap:
+		for _, r := range *x.Referrers() {
+			if mu, ok := r.(*ssa.MapUpdate); ok && mu.Value == ssa.Value(x) && strings.HasSuffix(accessPath(mu.Map), ".Envelopes") {
+				return true
+			}
+		}
+	case *ssa.Phi:
+		for _, e := range x.Edges {
+			if !derivesFromEnvelopes(e, depth+1) {
+				return false
+			}
+		}
+		return len(x.Edges) > 0
+	}
+	return false
 }
